@@ -25,14 +25,14 @@ def live (n : Needle) (nowNs : Nat) : Bool :=
     "client-supplied" (the harness keeps every decision ≥ 120 s from its edge) -/
 def lmSlack : Nat := 60
 
-/-- Why did a still-live blob disappear? One class per distinct cause; a cause that is not one
+/-- Why did a still-live blob disappear? (a TTL of 0 minutes never expires, so it counts as longer than any volume TTL) One class per distinct cause; a cause that is not one
     of the recorded defects gets the generic class (⇒ VIOLATION). `byDeletion` = the whole
     volume is gone (expiry), otherwise compaction dropped the record. -/
 def removalClass (byDeletion : Bool) (volTtl : TTL) (n : Needle) : String :=
   let who := if byDeletion then "expiry" else "compact"
   if !byDeletion ∧ ttlMinutes volTtl = 0 then "compact/ttl-needle-on-non-ttl-volume"
   else if !byDeletion ∧ 2 ^ 32 ≤ ttlMinutes volTtl * 60 then "compact/volume-ttl-seconds-overflow-uint32"
-  else if ttlMinutes volTtl < ttlMinutes n.ttl then who ++ "/needle-ttl-longer-than-volume-ttl"
+  else if ttlMinutes n.ttl = 0 ∨ ttlMinutes volTtl < ttlMinutes n.ttl then who ++ "/needle-ttl-longer-than-volume-ttl"
   else if (n.lm + lmSlack) * nsPerSec < n.appendNs then who ++ "/last-modified-older-than-append"
   else who ++ "/removes-unexpired-needle"
 
